@@ -29,7 +29,7 @@ REACH = ["_tree:Tree.encode_bipartitions", "_bipartition:Bipartition.compile_spl
          "_bipartition:Bipartition.is_trivial_bitmask", "_bipartition:Bipartition.is_leafset_nested_within",
          "_tree:Tree.is_compatible_with_bipartition", "_bipartition:Bipartition.is_compatible_with",
          "_bipartition:Bipartition.is_trivial", "_tree:Tree.update_bipartitions"]
-MIN_EVENTS = {"edge-mask-checked": (500, 20000), "iff-pair-checked": (200, 5000),
+MIN_EVENTS = {"encode-basal-bifurcation-clause-checked": (50000, 300000), "edge-mask-checked": (500, 20000), "iff-pair-checked": (200, 5000),
               "rebuild-checked": (50, 1000), "predicate-checked": (500, 10000),
               "hook:Tree.encode_bipartitions:return": (100, 3000),
               # input classes / histories / argument types added after the audit (40-50% of the clean counts)
@@ -308,6 +308,18 @@ def install_encode_hook(ctx, hooks, state=None):
         elif result is None or result is not tree.bipartition_encoding:
             ctx.violation("encode|return-value-is-not-the-stored-encoding", "documented: the stored list is returned",
                           {"flags": flags, "returned": type(result).__name__})
+        # documented restructuring: with collapse_unrooted_basal_bifurcation (default True) an unrooted '(A,(B,C))' "will be
+        # changed to '(A,B,C)' after this".  With unifurcations suppressed as well (default) no bifurcating seed with an
+        # internal child can be left: otherwise two basal edges carry one split (seeded change C03d: the seed node was
+        # looked up before the up-front suppression replaced it).
+        if (flags.get("collapse_unrooted_basal_bifurcation", True) and flags.get("suppress_unifurcations", True)
+                and not tree._is_rooted):
+            kids = tree._seed_node._child_nodes
+            ctx.ev("encode-basal-bifurcation-clause-checked")
+            if len(kids) == 2 and any(k._child_nodes for k in kids):
+                ctx.violation("%s|unrooted-basal-bifurcation-left-in-place" % where,
+                              "an unrooted tree keeps a bifurcating seed node with an internal child after an encoding that was to collapse it",
+                              {"flags": flags})
         check_encoding(ctx, tree, tree.taxon_namespace, bool(tree._is_rooted), where, snap[0], flags, as_user=True)
     hooks.install(dendropy.Tree, "encode_bipartitions", pre=pre, post=post)
 
